@@ -54,6 +54,12 @@ Definition s_add (s : state) (p : path) : res :=
          else RErr s
   end.
 
+(* builtin/rm.c: the index entries are dropped first, then the files are removed in index order; a
+   removal that fails (the path is a directory now) is fatal only when no file has been removed
+   yet, i.e. when it is the FIRST one — afterwards failures are passed over *)
+Definition first_fails (s : state) (victims : list path) : bool :=
+  match victims with v :: _ => is_dir_wt s v && negb (has_file s v) | [] => false end.
+
 Definition s_rm (s : state) (p : path) : res :=
   match find_i (st_index s) p with
   | Some _ =>
@@ -63,7 +69,10 @@ Definition s_rm (s : state) (p : path) : res :=
     let victims := filter (under p) (map ie_path (st_index s)) in
     match victims with
     | [] => RErr s
-    | _ => ROk (with_both s (fold_left idx_remove victims (st_index s)) (fold_left wt_remove victims (st_wt s)))
+    | _ =>
+      (* an entry below p whose path is a directory now: "is a directory" *)
+      if first_fails s victims then RErr s
+      else ROk (with_both s (fold_left idx_remove victims (st_index s)) (fold_left wt_remove victims (st_wt s)))
     end
   end.
 
@@ -109,3 +118,7 @@ Definition c28_git_commit (tbl : list string) (s : state) : out :=
   OList [OSym "ok";
          OList (map (fun '(p, m, h) => OList [OBytes p; out_mode m; OBytes (content_of t (h_cid h))])
                     (sort_by (fun x => fst (fst x)) (s_tree_files s)))].
+
+(* git clean -f -d (no -x): empty untracked directories go, ignored ones stay *)
+Definition s_clean_empty_dirs (dirs : list (path * bool)) : list path :=
+  map fst (filter (fun d => snd d) dirs).
